@@ -10,7 +10,7 @@ D# = -7
 L& = 2147483647
 I% = -32768
 Q! = 2.5
-LPRINT CR$
+PRINT 5 ;
 PRINT , "|"
 LPRINT , "|"
 PRINT #1, , "|"
